@@ -1,5 +1,18 @@
-import XlVerif.Base
-/-! Driver for C04 (stub: replaced when the property's model is built). -/
+import XlVerif.Drv.EvalWire
+/-! Driver for C04 (stub with the shared `eval` request; the C04 builder extends it).
+  `C04 eval <fuel> <cells> <ranges> <names> <addr>` → `impl=<result>  fresh=<result>  trace=<addr,…>`
+-/
 namespace XlVerif.Drv.C04
-def handle (_fields : List String) : String := "error=not-implemented"
+open XlVerif XlVerif.Model.Evaluator XlVerif.Drv.EvalWire
+
+def handle (fields : List String) : String :=
+  match fields with
+  | ["eval", fuel, cells, ranges, names, addr] =>
+    (match fuel.toNat?, modelOfWire? cells ranges names, parseText? addr with
+     | some n, some m, some a =>
+       let (_, r, tr) := evaluate stdSem n m a
+       kv [("impl", resW r), ("fresh", resW (fresh stdSem n (erase m) a)),
+           ("trace", ",".intercalate (tr.map textWire))]
+     | _, _, _ => "error=bad-args")
+  | _ => "error=bad-request"
 end XlVerif.Drv.C04
